@@ -318,7 +318,7 @@ Definition fa_set_finish (x : fa * fa_set * lres) : fa * fa_set * fa_out :=
   let '(r, rs, lr) := x in
   match lr with
   | LDone => (r, mkFaSet (buf r) (spositions rs) (snpos rs), OSetOk)
-  | LErr e => (r, rs, OErr e)
+  | LErr e => (r, mkFaSet (sbuf rs) (spositions rs) 0, OErr e)   (* the set is emptied before the error is returned *)
   | LPanic s => (r, rs, OPanic s)
   | LFuel => (r, rs, OFuel)
   | LNone => (r, rs, ONone)
